@@ -667,8 +667,13 @@ func (p Placed) Job() Job {
 	if f.SpecName == "" {
 		f.SpecName = "openapi.yaml" // the CLI's default for --spec-handler-name
 	}
+	cfg := p.Cfg
+	if cfg == "" {
+		// what the command line passes too: the (absent) config next to the spec
+		cfg = filepath.Join(filepath.Dir(p.Spec), ".goag.yaml")
+	}
 	return Job{
-		ID: p.Case.ID, Spec: p.Spec, Out: p.Out, Package: p.Pkg, BasePath: f.BasePath, Cfg: p.Cfg,
+		ID: p.Case.ID, Spec: p.Spec, Out: p.Out, Package: p.Pkg, BasePath: f.BasePath, Cfg: cfg,
 		SpecName: f.SpecName, Client: f.Client, NoAPI: f.NoAPIHandler, DoNotEdit: f.DoNotEdit,
 	}
 }
